@@ -138,4 +138,12 @@ CHECKS = {
         assumptions=COMMON_ASSUME + SIM_ASSUME + ["crash model = the one the properties name: every subset of 8-byte-aligned chunks of un-synced writes, pending directory operations kept or lost, file length; garbled sector contents are not generated", "mutating I/O is issued by one goroutine at a time (the harness waits for the background rotation after each append), so event numbering is deterministic"],
         jobs=[dict(pkg="crash", run="TestCrashC13", checks_quick=30, checks_thorough=500, shards_quick=16, shards_thorough=16, shrinktime="15s", timeout_quick=600, timeout_thorough=3000)],
     ),
+    "C10": dict(
+        level="fault_enumeration",
+        technique="I/O fault enumeration over rapid-generated workloads on SimFS/SimMeta: each selected VFS/MetaStore call (and pairs) fails transiently or persistently, with partial writes; oracle = in-process model after every step and the set of allowed states (each failed call applied in full or not at all) after reopen",
+        rule="rapid-generated workloads (appends, head/tail/everything DeleteRange, stable Set, reopen, immediate retry of the failed call) over segment sizes {1..512}; a fault-free pass counts calls per kind, then one or two calls chosen by (kind, ordinal) among WriteAt (fail before / after a partial write), SyncFile, SyncDir, Create, Unlink, CommitState, SetStable, ListDir, OpenReader, OpenWriter, Load fail once or until healed; the workload continues from the observed in-process bounds, faults are cleared, the WAL is closed and reopened. Non-trivial = the fault was hit, a call returned an error and at least one later mutating call succeeded before the reopen; distinct = FNV-64 of the case",
+        expect_classes=["failed-append", "failed-delete", "fault-in-open", "retry-after-failure", "reopen"] + ["fault:%s/%s" % (k, m) for k in ["WriteAt", "SyncFile", "SyncDir", "Create", "Unlink", "CommitState", "ListDir", "OpenReader", "OpenWriter", "Load"] for m in ["transient", "persistent"]],
+        assumptions=COMMON_ASSUME + SIM_ASSUME + ["a failed CommitState is clean (not committed): the MetaStore contract is atomic; ambiguous commit results are not generated", "availability is not asserted: after a fault the WAL may refuse writes until reopened"],
+        jobs=[dict(pkg="fault", run="TestC10Faults", checks_quick=800, checks_thorough=20000, shards_quick=16, shards_thorough=16, timeout_quick=600, timeout_thorough=3000)],
+    ),
 }
